@@ -182,6 +182,11 @@ func (c *Case) chainTargets(j int) map[int]bool {
 			continue
 		}
 		h := &c.Hosts[p]
+		for _, t := range h.Chain {
+			if c.valid(t) && t != p {
+				out[t] = true
+			}
+		}
 		if c.valid(h.RedirectTo) && h.RedirectTo != p {
 			out[h.RedirectTo] = true
 			if t := &c.Hosts[h.RedirectTo]; t.Kind == "storage" && c.valid(t.RedirectTo) {
@@ -247,6 +252,15 @@ func (c *Case) role(x, j int) string {
 }
 
 func isCredKind(k string) bool { return k != "bearer" }
+
+func (c *Case) inChain(j, x int) bool {
+	for _, t := range c.Hosts[j].Chain {
+		if t == x {
+			return true
+		}
+	}
+	return false
+}
 
 func bareHost(h string) string {
 	if k := strings.LastIndexByte(h, ':'); k > 0 {
@@ -409,7 +423,7 @@ func oracle(c *Case, res *runResult) ([]*evid.Violation, *stats) {
 			chain := c.chainTargets(j)
 			attributed := false
 			// (00) Authorization of the request to registry j inherited by the redirect target
-			if x >= 0 && c.valid(j) && !strings.HasPrefix(e.Path, "/token/") && c.Hosts[j].RedirectTo == x && sameSite(c.Hosts[j].Name, c.Hosts[x].Name) &&
+			if x >= 0 && c.valid(j) && !strings.HasPrefix(e.Path, "/token/") && (c.Hosts[j].RedirectTo == x || c.inChain(j, x)) && sameSite(c.Hosts[j].Name, c.Hosts[x].Name) &&
 				(strings.Contains(e.RawQuery, "via=rd") || c.Hosts[x].Kind == "storage") {
 				addV(evid.V(sigSameSite, "%s; registry %d redirected the blob GET to this host, whose name is a sub-domain of / the same name with another port as the registry's", what, j))
 				continue
@@ -555,6 +569,11 @@ func oracle(c *Case, res *runResult) ([]*evid.Violation, *stats) {
 		}
 		if h.RedirectTo != i && got(h.RedirectTo) {
 			edge["redirect"] = true
+		}
+		for _, t := range h.Chain {
+			if t != i && got(t) {
+				edge["redirect"] = true
+			}
 		}
 		if got(h.Upload) {
 			edge["upload"] = true
@@ -842,6 +861,34 @@ func caseClasses(c *Case, res *runResult, st *stats) []string {
 		}
 		if h.Kind == "registry" && c.valid(h.RedirectTo) && h.RedirectTo != i && sameSite(h.Name, c.Hosts[h.RedirectTo].Name) {
 			add("redirect:target-in-same-site-as-registry")
+		}
+		if h.Kind == "registry" && len(h.Chain) > 0 {
+			add(fmt.Sprintf("redirect-chain:%d-hops", len(h.Chain)))
+			if h.ChainHead {
+				add("redirect-chain:head-too")
+			}
+			add("redirect-chain:registry-auth-" + h.Auth.Ch.Kind)
+			for k, t := range h.Chain {
+				if !c.valid(t) {
+					continue
+				}
+				switch {
+				case t == i:
+					add("redirect-chain:back-to-the-registry")
+				case sameSite(h.Name, c.Hosts[t].Name):
+					add("redirect-chain:own-site-host")
+					if k > 0 && h.Chain[k-1] == t {
+						add("redirect-chain:consecutive-hops-on-one-own-site-host")
+					}
+				case c.Hosts[t].Kind == "registry":
+					add("redirect-chain:another-registry")
+				default:
+					add("redirect-chain:third-host")
+				}
+				if k > 0 && h.Chain[k-1] == t {
+					add("redirect-chain:consecutive-hops-on-one-host")
+				}
+			}
 		}
 	}
 	for k, o := range c.Ops {
